@@ -20,3 +20,113 @@ LEVEL_TEXT = ("Deductive for the seed plumbing (necessary condition): stateful s
               "reproducibility itself is a hyper-property inside Hypothesis and is not decided. Level other.")
 LEVEL_NOTE = "Trusted: Hypothesis seeding semantics (E2), pyvc semantics (E9). Unseeded example fill-ins (generate_one) are a known finding."
 TECHNIQUE = "contract-based deductive verification: ghost-state postconditions on the real seed-plumbing code via AST->z3 VC generation (pyvc)"
+
+
+# ------------------------------------------------------------------------------------------------- create_test: the unit phases' Hypothesis test is seeded from config.seed
+BLD = "schemathesis.generation.hypothesis.builder:"
+PHASES_ALL = ("explicit", "reuse", "generate", "target", "shrink", "explain")
+for _ph in PHASES_ALL:
+    R.extern_values["hypothesis.Phase." + _ph] = (lambda v: (lambda it: v))(_ph)
+
+
+def _settings(it, **fields):
+    from pyvc.values import VObj
+
+    return VObj(it.resolve_class("spec:Settings"), dict(fields))
+
+
+def _default_settings(it):
+    if "__default_settings" not in it.ghost:
+        it.ghost["__default_settings"] = _settings(it, max_examples=100, deadline=200, phases=PHASES_ALL, derandomize=False)
+    return it.ghost["__default_settings"]
+
+
+R.extern_values["hypothesis.settings.default"] = _default_settings
+
+
+def _new_settings(it, a, k):
+    """E2 hypothesis.settings(parent, **changes): a new settings object equal to the parent except for the given names."""
+    parent = a[0] if a else _default_settings(it)
+    fields = dict(parent.fields)
+    for name, value in k.items():
+        if name not in fields:
+            it.raise_builtin("TypeError", f"settings.__init__() got an unexpected keyword argument '{name}'")
+        fields[name] = value
+    return _settings(it, **fields)
+
+
+R.extern["hypothesis.settings"] = _new_settings
+
+
+_seed_of_state_machines = R.extern["hypothesis.seed"]  # the stateful loop's model (engine_common): hypothesis.seed(n)(MachineClass)
+
+
+def _seed_deco(it, args, kw):
+    from pyvc.interp import BuiltinFn
+    from pyvc.values import VObj
+
+    seed = args[0]
+    machine_deco = _seed_of_state_machines(it, args, kw)
+
+    def deco(it2, a, k):
+        t = a[0]
+        if isinstance(t, VObj) and t.cls.name == "HypothesisTest":
+            return VObj(t.cls, {**t.fields, "seed": seed, "seeded": True})
+        return machine_deco.fn(it2, a, k)
+
+    return BuiltinFn("hypothesis.seed(...)", deco)
+
+
+R.extern["hypothesis.seed"] = _seed_deco
+R.module_values[BLD.rstrip(":") + ":_HYPOTHESIS_SETTINGS_NAMES"] = ("max_examples", "deadline", "phases", "derandomize")
+R.contract("schemathesis.core.marks:Mark.get", args={"self": Opq("Any"), "func": Opq("Any")}, returns=OneOf(NoneT, Opq("Marked")), trusted=True, note="hook dispatcher / auth storage attached to the test function")
+R.contract("schemathesis.generation.hypothesis.strategies:combine", args={"strategies": Opq("Any")}, returns=Opq("Strategy"), trusted=True, note="a | b | c of the per-mode strategies (C01/C02)")
+R.contract(BLD + "create_base_test", args={"test_function": Opq("Any"), "strategy": Opq("Any"), "args": Opq("Any"), "kwargs": Opq("Any")}, trusted=True,
+           returns=lambda it, env: __import__("pyvc.values", fromlist=["VObj"]).VObj(it.resolve_class("spec:HypothesisTest"), {"_hypothesis_internal_use_settings": _default_settings(it), "seeded": False, "seed": None}),
+           note="E2 given(case=strategy)(wrapper): a Hypothesis test carrying the default settings, not yet seeded")
+R.contract(BLD + "add_examples", args={"test": Opq("Any"), "operation": Opq("Any"), "hook_dispatcher": Opq("Any")}, returns=lambda it, env: env["test"], trusted=True, note="C17 contracts: attaches explicit examples")
+R.contract(BLD + "add_coverage", args={"test": Opq("Any"), "operation": Opq("Any"), "generation_modes": Opq("Any"), "auth_storage": Opq("Any"), "as_strategy_kwargs": Opq("Any"),
+                                      "unexpected_methods": Opq("Any")}, returns=lambda it, env: env["test"], trusted=True, note="C03 contracts: attaches coverage cases")
+R.nominal_methods["spec:UnitOperation"] = {"as_strategy": lambda it, obj, a, k: fresh_opaque(it, "Strategy")}
+R.nominal_methods["spec:Specification"] = {"supports_feature": lambda it, obj, a, k: Bool.make(it, it.path.fresh("supports_feature"))}
+
+
+class _UserSettings(D):
+    """The user's hypothesis.settings (from the configuration): any max_examples, any of a few phase selections, deadline default or not."""
+
+    def make(self, it, name, idx=()):
+        phases = it.path.choose([(PHASES_ALL, True), (("explicit", "generate"), True), (("generate", "shrink", "explain"), True), (("explicit",), True)], "user-phases")
+        deadline = it.path.choose([(200, True), (None, True), (500, True)], "user-deadline")
+        return _settings(it, max_examples=IntRange(1, None).make(it, "user_max_examples"), deadline=deadline, phases=phases, derandomize=Bool.make(it, "user_derandomize"))
+
+
+class _Modes(D):
+    def make(self, it, name, idx=()):
+        cls = it.resolve_class(BLD + "HypothesisTestMode")
+        it.ensure_enum(cls)
+        M = cls.members
+        return it.path.choose([([M["FUZZING"]], True), ([M["EXAMPLES"]], True), ([M["COVERAGE"]], True), ([M["EXAMPLES"], M["COVERAGE"], M["FUZZING"]], True)], "test-modes")
+
+
+GenCfg = Obj("schemathesis.generation:GenerationConfig", modes=Const(()), unexpected_methods=NoneT)
+R.contract(
+    BLD + "create_test",
+    prop="C13",
+    args={"operation": Obj("spec:UnitOperation", schema=Obj("spec:UnitSchema", specification=Obj("spec:Specification"))), "test_func": Opq("TestFunction"),
+          "config": Obj(BLD + "HypothesisTestConfig", generation=GenCfg, modes=_Modes(), settings=OneOf(NoneT, _UserSettings()), seed=Opt(Int), as_strategy_kwargs=Const({}),
+                        given_args=Const(()), given_kwargs=Const({}))},
+    raises=[],
+    ensures={
+        # every entry into Hypothesis on this request-producing path is seeded from the configured seed - for EVERY integer seed (0 and negative ones included)
+        "C13_seeded_with_the_configured_seed": "implies(config.seed is not None, result.seeded and result.seed == config.seed)",
+        "C13_unseeded_only_without_a_seed": "implies(config.seed is None, not result.seeded)",
+        # C12: limits the user configured are the ones the test runs with
+        "C12_user_max_examples_kept": "implies(config.settings is not None, final_settings(result).max_examples == config.settings.max_examples)",
+        "C12_only_phases_the_user_enabled": "implies(config.settings is not None, all(p in config.settings.phases for p in final_settings(result).phases))",
+        "C12_no_generation_without_fuzzing": "implies(not any(m.name == 'FUZZING' for m in config.modes), 'generate' not in final_settings(result).phases and 'reuse' not in final_settings(result).phases)",
+        "explain_phase_removed": "'explain' not in final_settings(result).phases",
+    },
+    replayable=False,
+    max_paths=30000,
+)
+R.spec_funcs["final_settings"] = lambda it, t: t.fields["_hypothesis_internal_use_settings"]
